@@ -165,6 +165,10 @@ fn text() -> impl Strategy<Value = String> {
         1 => Just("\u{e9}\u{1F600}\u{a0}".to_owned()),
         1 => Just("\n".to_owned()),
         1 => Just("\u{0}nul".to_owned()),
+        // text the serializer / parser pair rewrites although it contains neither '<' nor '&'
+        1 => Just("1 > 0".to_owned()),
+        1 => Just("line one\r\nline two\rthree".to_owned()),
+        1 => "[a-z>\u{a0}\r\n\u{0} \"']{1,8}",
     ]
 }
 
@@ -189,6 +193,11 @@ fn raw_noise() -> impl Strategy<Value = String> {
         Just("<img alt=\"x\" src=\"http://tracker/x.png\">".to_owned()),
         Just("<code class=\"language-rust x\">c</code>".to_owned()),
     ]
+}
+
+/// Documents without any markup: one to three text nodes.
+pub fn text_only() -> impl Strategy<Value = Vec<Node>> {
+    prop::collection::vec(text().prop_map(Node::Text), 1..4)
 }
 
 pub fn nodes(depth: u32) -> impl Strategy<Value = Vec<Node>> {
